@@ -12,16 +12,44 @@ from .hist import Index
 RATIO = 4.5
 
 
-def model(T0: float, K: float, arrivals: list[float], horizon: float, tie: float, max_branches: int = 256) -> list[tuple[list[float], float | None]]:
-    """All outcomes (ping times, close time) the statement allows; ties may resolve either way."""
-    results: list = []
+def model(T0: float, K: float, arrivals: list[float], horizon: float, tie: float, obs_pings: list[float] | None = None, obs_close: float | None = None, budget: int = 200000) -> list[tuple[list[float], float | None]]:
+    """Outcomes (ping times, close time) the statement allows; an arrival tying with a timer may fall on either side.
+
+    With observations given, the search is pruned against them and returns [matching outcome] or, if none
+    matches, [the outcome of the arrival-first resolution] for the report.
+    """
+    steps = [0]
+    found: list = []
+    first_full: list = []
+
+    def consistent(pings: list[float]) -> bool:
+        if obs_pings is None:
+            return True
+        n = len(pings)
+        if n > len(obs_pings):
+            return False
+        return n == 0 or abs(pings[-1] - obs_pings[n - 1]) <= tie + 1e-9
+
+    def finish(pings: list[float], close: float | None) -> None:
+        if not first_full:
+            first_full.append((list(pings), close))
+        if obs_pings is None:
+            found.append((list(pings), close))
+            return
+        if len(pings) != len(obs_pings):
+            return
+        if (close is None) != (obs_close is None):
+            return
+        if close is not None and abs(close - obs_close) > tie:
+            return
+        found.append((list(pings), close))
 
     def run(i: int, t_tick: float, pending: bool, deadline: float | None, pings: list[float]) -> None:
-        if len(results) >= max_branches:
-            return
         while True:
+            steps[0] += 1
+            if steps[0] > budget or (obs_pings is not None and found):
+                return
             nxt_arr = arrivals[i] if i < len(arrivals) else None
-            # next event: arrival, tick, deadline
             cands = [("tick", t_tick)]
             if nxt_arr is not None:
                 cands.append(("arr", nxt_arr))
@@ -29,60 +57,52 @@ def model(T0: float, K: float, arrivals: list[float], horizon: float, tie: float
                 cands.append(("dead", deadline))
             tmin = min(c[1] for c in cands)
             if tmin > horizon:
-                results.append((pings, None))
+                finish(pings, None)
                 return
-            now = [c for c in cands if abs(c[1] - tmin) <= tie]
-            kinds = sorted(c[0] for c in now)
+            kinds = sorted(c[0] for c in cands if abs(c[1] - tmin) <= tie)
             if len(kinds) > 1 and "arr" in kinds:
-                # tie involving an arrival: it may fall on either side of the timer(s)
-                # branch A: arrival first
-                run_arrival_first = True
-            else:
-                run_arrival_first = None
-            if run_arrival_first:
-                # A: arrival, then continue (timers re-evaluated)
-                run_branch(i + 1, t_tick, False, None, list(pings))
-                # B: timers first, then the arrival
-                # fallthrough handles timers with the arrival postponed by marking it consumed later
-                k2 = [k for k in kinds if k != "arr"]
-                i_b, t_b, p_b, d_b, pg_b = i, t_tick, pending, deadline, list(pings)
-                closed = False
-                for k in sorted(k2, key=lambda k: 0 if k == "dead" else 1):
+                # A: the arrival is processed first (what one event-loop turn does)
+                run(i + 1, t_tick, False, None, list(pings))
+                if obs_pings is not None and found:
+                    return
+                # B: the timer(s) first, then the arrival
+                p_b, d_b, t_b, pg_b = pending, deadline, t_tick, list(pings)
+                for k in sorted((k for k in kinds if k != "arr"), key=lambda k: 0 if k == "dead" else 1):
                     if k == "dead":
-                        results.append((pg_b, d_b))
-                        closed = True
-                        break
-                    if k == "tick":
-                        if p_b:
-                            pg_b.append(t_b)
-                            if d_b is None:
-                                d_b = t_b + RATIO * K
-                        p_b = True
-                        t_b = t_b + K
-                if not closed:
-                    run_branch(i_b + 1, t_b, False, None, pg_b)
-                return
+                        finish(pg_b, d_b)
+                        return
+                    if p_b:
+                        pg_b.append(t_b)
+                        if not consistent(pg_b):
+                            return
+                        if d_b is None:
+                            d_b = t_b + RATIO * K
+                    p_b = True
+                    t_b = t_b + K
+                i, t_tick, pending, deadline, pings = i + 1, t_b, False, None, pg_b
+                continue
             kind = kinds[0] if len(kinds) == 1 else ("dead" if "dead" in kinds else "tick")
             if kind == "arr":
                 i += 1
                 pending = False
                 deadline = None
             elif kind == "dead":
-                results.append((pings, deadline))
+                finish(pings, deadline)
                 return
             else:
                 if pending:
                     pings = pings + [t_tick]
+                    if not consistent(pings):
+                        return
                     if deadline is None:
                         deadline = t_tick + RATIO * K
                 pending = True
                 t_tick = t_tick + K
 
-    def run_branch(i: int, t_tick: float, pending: bool, deadline: float | None, pings: list[float]) -> None:
-        run(i, t_tick, pending, deadline, pings)
-
     run(0, T0 + K, True, None, [])
-    return results
+    if obs_pings is not None:
+        return found if found else first_full
+    return found
 
 
 def keepalive_oracle(ix: Index, scn: dict) -> list[Violation]:
@@ -145,13 +165,13 @@ def keepalive_oracle(ix: Index, scn: dict) -> list[Violation]:
     if stalls:
         return out
     horizon = end_t - 1e-6
-    outcomes = model(T0, K, arrivals, horizon, tol)
+    close_for_model = close_obs if close_cls == "PingFailedAPIError" else None
+    outcomes = model(T0, K, arrivals, horizon, tol, pings_obs, close_for_model)
     ok = False
     for pings_m, close_m in outcomes:
-        # compare pings up to the close
         if len(pings_m) != len(pings_obs) or any(abs(a - b) > tol + 1e-9 for a, b in zip(pings_m, pings_obs)):
             continue
-        if (close_m is None) != (close_obs is None or close_cls != "PingFailedAPIError"):
+        if (close_m is None) != (close_for_model is None):
             continue
         if close_m is not None and abs(close_m - close_obs) > tol:
             continue
@@ -159,7 +179,7 @@ def keepalive_oracle(ix: Index, scn: dict) -> list[Violation]:
         break
     if not ok:
         pm, cm = outcomes[0] if outcomes else ([], None)
-        detail = f"K={K} T0={T0:.6f} arrivals={[round(a - T0, 6) for a in arrivals][-8:]} observed pings={[round(p - T0, 6) for p in pings_obs]} close={None if close_obs is None else round(close_obs - T0, 6)}({close_cls}); model pings={[round(p - T0, 6) for p in pm]} close={None if cm is None else round(cm - T0, 6)} (times relative to T0; {len(outcomes)} admissible outcome(s))"
+        detail = f"K={K} T0={T0:.6f} arrivals={[round(a - T0, 6) for a in arrivals][-8:]} observed pings={[round(p - T0, 6) for p in pings_obs]} close={None if close_obs is None else round(close_obs - T0, 6)}({close_cls}); model pings={[round(p - T0, 6) for p in pm]} close={None if cm is None else round(cm - T0, 6)} (times relative to T0; model shown for arrival-before-timer tie resolution)"
         if len(pm) != len(pings_obs) or any(abs(a - b) > tol + 1e-9 for a, b in zip(pm, pings_obs)):
             extra = [p for p in pings_obs if all(abs(p - q) > tol for q in pm)]
             out.append(Violation("ping-schedule", "extra" if extra else "missing", "pings on the wire differ from the reference model: " + detail))
